@@ -83,3 +83,23 @@ for _p in ["C%02d" % i for i in range(1, 18)]:
 
 H("c01_enc_lands", module="verif_amd64.rs", props=["C01", "C13"], fns=[(AMD, "generate_branch_to_target_function")],
   covers=["COVER:end", "COVER:short-form", "COVER:long-form"])
+
+_LIFE_FNS = [(AMD, "replace_function_with_other_function"), (AMD, "replace_function_return_boolean"), (AMD, "generate_will_return_boolean_jit_code"), (AMD, "patch_and_guard"),
+             (AMD, "generate_branch_to_target_function"), (COM, "allocate_jit_memory"), (COM, "allocate_jit_memory_unix"), (COM, "read_bytes"), (COM, "new"), (COM, "drop"),
+             (COM, "patch_function", 0), (COM, "make_memory_writable_and_executable"), (COM, "make_memory_writable_and_executable_linux"), (COM, "inject_asm_code"), (COM, "clear_cache")]
+H("lifecycle_near", module="verif_amd64.rs", props=["C01", "C02", "C03", "C11", "C12", "C13", "C17"], fns=_LIFE_FNS, covers=["COVER:end"], min_obligations=15)
+H("lifecycle_bool", module="verif_amd64.rs", props=["C01", "C02", "C03", "C10", "C12", "C17"], fns=_LIFE_FNS, covers=["COVER:end", "COVER:true"], min_obligations=15)
+H("lifecycle_far", module="verif_amd64.rs", props=["C01", "C02", "C03", "C12", "C17"], fns=_LIFE_FNS, covers=["COVER:end", "COVER:long-entry"], min_obligations=15)
+
+def _page_back(vals):
+    """counterexample (off, len, page-size selector) -> bytes between the entry and the page end for the
+    native 5-byte patch on 4 KiB pages: the same straddle, on the real code in a real process"""
+    off, ln, sel = le(vals, 0), le(vals, 1), le(vals, 2)
+    ps = {0: 16, 1: 32, 2: 4096, 3: 16384}.get(sel, 65536)
+    room = ps - off % ps
+    return max(1, min(4, room)) if room < ln else 16
+
+
+_PAGE_FNS = [(COM, "patch_function", 0), (COM, "make_memory_writable_and_executable"), (COM, "make_memory_writable_and_executable_linux"), (COM, "inject_asm_code")]
+H("c01_page_cover", module="verif_common.rs", props=["C01"], fns=_PAGE_FNS, covers=["COVER:end", "COVER:straddles", "COVER:straddles-two"],
+  replay=lambda vals, verif: _replay_bin("c01_page_span", [_page_back(vals)], verif))
